@@ -15,7 +15,7 @@ def parse(line):
     lam = int(t[0])
     if t[1] != 'OK': return lam, None
     v = [int(x) for x in t[2:]]
-    d = dict(n=v[0], a_in=v[1] / 2.0**v[2], amax=v[3] / 2.0**v[4], N=v[5], k=v[6], a_bk=v[7] / 2.0**v[8], l=v[11], Bgbit=v[12], Bg=v[13], halfBg=v[14],
+    d = dict(n=v[0], a_in=v[1] / 2.0**v[2], amax=v[3] / 2.0**v[4], N=v[5], k=v[6], a_bk=v[7] / 2.0**v[8], amax_bk=v[9] / 2.0**v[10], l=v[11], Bgbit=v[12], Bg=v[13], halfBg=v[14],
              maskMod=v[15], kpl=v[16], offset=v[17], t=v[18], basebit=v[19], ext_n=v[20], h=v[23:])
     return lam, d
 
@@ -54,6 +54,11 @@ def run(ctx):
         if d is None:
             ctx.report('selector-rejects', 'lambda=%d is rejected (should return the %s)' % (lam, exp), {'lambda': lam, 'observed': line}); continue
         doc = DOC[exp]
+        # the upper noise levels (alpha_max) are fields of the returned sets too: "max standard deviation for a 1/4 message space",
+        # i.e. 10 standard deviations within 1/8; they must lie between the set's own noise level and 1/80
+        for f, lo in (('amax', d['a_in']), ('amax_bk', d['a_bk'])):
+            if not (lo <= d[f] <= 0.0125):
+                ctx.report('set-field-' + f, 'lambda=%d: field %s = %r is not between the noise level %r of the set and 1/80 (10 standard deviations inside 1/8)' % (lam, f, d[f], lo), {'lambda': lam, 'field': f, 'observed': d[f]})
         for f, v in doc.items():
             ov = d[f]
             ok = (abs(ov - v) <= 1e-15 * abs(v)) if isinstance(v, float) else ov == v
